@@ -142,6 +142,9 @@ Section Top.
   Proof. intros HI Ha Hb. apply (inv_case size_of s HI a b ma mb); apply mget_listed; assumption. Qed.
 
   (** ** start-up prune is exact *)
+  Lemma has_unreadable_mans_eq s s' : mans s' = mans s -> has_unreadable s' = has_unreadable s.
+  Proof. unfold has_unreadable. intros ->. reflexivity. Qed.
+
   Lemma referenced_mans s s' d : mans s' = mans s -> referenced s' d = referenced s d.
   Proof. unfold referenced. intros ->. reflexivity. Qed.
 
@@ -205,6 +208,15 @@ Section Top.
     destruct (IH _ Hd') as [H1 [H2 H3]]. cbn in H2, H3. auto.
   Qed.
 
+  Lemma fix_step_mans r d : mans (rs (fix_step r d)) = mans (rs r).
+  Proof. destruct d; reflexivity. Qed.
+
+  Lemma fix_blobs_mans r : mans (rs (fix_blobs r)) = mans (rs r).
+  Proof.
+    unfold fix_blobs. generalize (debris (rs r)) as ds. intros ds. revert r.
+    induction ds as [|d ds IH]; intros r; cbn [fold_left]; [reflexivity|]. rewrite IH. apply fix_step_mans.
+  Qed.
+
   (** after start-up with every manifest readable: no debris, manifests untouched, and a blob file exists iff a
       manifest uses it *)
   Lemma startup_exact s :
@@ -213,15 +225,17 @@ Section Top.
     debris s' = [] /\ mans s' = mans s /\ (forall h, (exists c, bget h s' = Some c) <-> referenced_hex s' h = true).
   Proof.
     intros HI Hu s'. assert (HI' : Inv s') by (apply recover_inv, HI).
-    subst s'. unfold Ops.recover, Ops.exec, op_run, op_startup in *. rewrite Hu in *. cbn [fst] in *.
-    set (r1 := fold_left (fun r d => emit r (ERmDebris d)) (debris s) (init s)) in *.
-    destruct (rm_debris_all (debris s) (init s) eq_refl) as [Hd [Hm Hb]]. fold r1 in Hd, Hm, Hb. cbn in Hm, Hb.
-    set (dm := map (fun p : N * N => MkDigest true (fst p)) (blobs s)) in *.
+    subst s'. unfold Ops.recover, Ops.exec, op_run, op_startup in *. cbn [fst] in *.
+    set (r0 := fix_blobs (init s)) in *.
+    assert (Hm0 : mans (rs r0) = mans s) by (apply (fix_blobs_mans (init s))).
+    unfold startup_rest in *. rewrite (has_unreadable_mans_eq _ _ Hm0), Hu in *.
+    set (r1 := fold_left (fun r d => emit r (ERmDebris d)) (debris (rs r0)) r0) in *.
+    destruct (rm_debris_all (debris (rs r0)) r0 eq_refl) as [Hd [Hm Hb]]. fold r1 in Hd, Hm, Hb.
+    set (dm := map (fun p : N * N => MkDigest true (fst p)) (blobs (rs r0))) in *.
     destruct (delete_unused_spec dm r1) as [Hm2 [Hd2 Hb2]].
     split; [congruence|]. split; [congruence|]. intros h. split.
     - intros [c Hc]. rewrite Hb2 in Hc.
       destruct (existsb (fun d => (dhex d =? h) && negb (referenced (rs r1) d)) dm) eqn:Ee; [discriminate|].
-      (* h is a blob of s, hence in dm, hence referenced *)
       assert (Hin : In (MkDigest true h) dm).
       { unfold dm. apply in_map_iff. unfold bget in Hc. rewrite Hb in Hc. apply (aget_In N.eqb Neqb_spec) in Hc. exists (h, c). auto. }
       assert (Hr : referenced (rs r1) (MkDigest true h) = true).
